@@ -162,7 +162,7 @@ theorem inv_relabel {D : List Tree} {s : St} (hI : Inv D s) (g g' : Nat) (hg' : 
 
 /-! ### evaluation of a new value -/
 
-theorem evalNew_fresh {T : Table} (hT : tableOK T = true) {D : List Tree} {s : St} (hI : Inv D s) {v : NewVal}
+theorem evalNew_fresh {T : Table} (hT : tableOK T = true) {D : List Tree} {s : St} (_hI : Inv D s) {v : NewVal}
     {t : Tree} {n : Nat} (h : evalNew T s v = some (t, n)) : s.next ≤ n ∧ ∀ x ∈ t.ids, s.next ≤ x ∧ x < n := by
   cases v with
   | imm w =>
